@@ -129,5 +129,5 @@ Xor1010(x) == FlipBit(FlipBit(x, 4), 12)
 
 \* Freshness over one group of connections: at least 2 distinct values of each kind the spec uses.
 \* With 16 equiprobable values and 64 connections a correct generator fails this with probability 16^-63.
-FreshOK(seen, want) == \A k \in {"cipher", "group", "version", "ext"} : want[k] > 0 => Cardinality(seen[k]) >= 2
+FreshOK(seen, want) == \A k \in {"cipher", "group", "version", "ext", "share"} : want[k] > 0 => Cardinality(seen[k]) >= 2
 =============================================================================
